@@ -27,6 +27,8 @@ CONSTANTS Callers,          \* 1..n
           ClearOnAnyDisconnect,  \* deviation (FALSE in the code): the end of ANY connection's receiver empties the node-wide table
           PeerMayClose,     \* TRUE: the peer may close the connection in mid-behaviour (PeerCloses) and the receiver deregister it (Deregister)
           LeakIfGoneAtTimeout,   \* deviation (FALSE in the code): a call that times out after its connection was deregistered keeps its table entry
+          GhostCallers,     \* callers whose call goes to a node this node has no connection to (it fails with "not connected" whatever the
+                            \* state of the connection to the peer is); the others call the peer
           SeqCallers        \* TRUE: generator configurations in which caller c starts only after every caller below c has returned
 VARIABLES pc, rid, table, conn, wire, inbox, result, nextRid, replies, delivered, hist,
           otherUp     \* the connection to the second peer is up
@@ -48,12 +50,12 @@ Alloc(c)  == Go(c, "idle", "allocated") /\ (SeqCallers => \A d \in Callers : d <
              /\ UNCHANGED <<table, conn, wire, inbox, result, replies, delivered>>
 Insert(c) == Go(c, "allocated", "inserted") /\ table' = table \cup {rid[c]} /\ H("insert", c)
              /\ UNCHANGED <<rid, conn, wire, inbox, result, nextRid, replies, delivered>>
-NoConn(c) == Go(c, "inserted", "returned") /\ conn = "absent" /\ table' = table \ {rid[c]}
+NoConn(c) == Go(c, "inserted", "returned") /\ (conn = "absent" \/ c \in GhostCallers) /\ table' = table \ {rid[c]}
              /\ result' = [result EXCEPT ![c] = R("not_connected", 0)] /\ H("send", c)
              /\ UNCHANGED <<rid, conn, wire, inbox, nextRid, replies, delivered>>
-SendOk(c) == Go(c, "inserted", "awaiting") /\ conn \in {"up", "closing"} /\ wire' = wire \cup {rid[c]} /\ H("send", c)
+SendOk(c) == Go(c, "inserted", "awaiting") /\ c \notin GhostCallers /\ conn \in {"up", "closing"} /\ wire' = wire \cup {rid[c]} /\ H("send", c)
              /\ UNCHANGED <<rid, table, conn, inbox, result, nextRid, replies, delivered>>
-SendFail(c) == Go(c, "inserted", "returned") /\ conn = "broken"
+SendFail(c) == Go(c, "inserted", "returned") /\ c \notin GhostCallers /\ conn = "broken"
              /\ table' = (IF LeakOnSendError THEN table ELSE table \ {rid[c]})
              /\ result' = [result EXCEPT ![c] = R("send_error", 0)] /\ H("send", c)
              /\ UNCHANGED <<rid, conn, wire, inbox, nextRid, replies, delivered>>
